@@ -55,6 +55,8 @@ FLOORS = {"quick": {"judged": 20000, "judged_included": 6000,
           "thorough": {"judged": 400000, "judged_included": 100000,
                        "judged_without_url": 100000,
                        "judged_with_exotic_line_break_chars": 80000}}
+HOOK_FLOORS = {"quick": {"original_exception_compared": 2000},
+               "thorough": {"original_exception_compared": 40000}}
 N_MODELS = {"quick": 400, "thorough": 10000}
 TEXTS = {"quick": 4, "thorough": 10}
 PER_TEXT = {"quick": 8, "thorough": 14}
@@ -111,6 +113,9 @@ def _ins_at(rng, node, item, after=None):
     if after is not None:
         lo = items.index(after) + 1
     items.insert(rng.randint(lo, len(items)), item)
+
+
+CONV_DT = [None]      # datatype whose refusal the last injected fault causes
 
 
 def inject(rng, res, root, kind):
@@ -229,6 +234,7 @@ def _inject_in(rng, res, root, node, cont, path, kind):
     if kind == "bad-key":
         it = ["k", rng.choice(family.BAD_KEYS[kt]), "v"]
         _ins_at(rng, node, it)
+        CONV_DT[0] = kt
         return it, "key", "keyconv"
     if kind == "bad-value":
         cand = []
@@ -242,6 +248,7 @@ def _inject_in(rng, res, root, node, cont, path, kind):
         it, c = rng.choice(cand)
         bad = [v for v in family.INVALID[c["datatype"]]]
         it[2] = rng.choice(bad)
+        CONV_DT[0] = c["datatype"]
         return it, "key", "valueconv"
     if kind in ("unknown-type", "abstract-type", "not-admitted"):
         if kind == "unknown-type":
@@ -490,7 +497,9 @@ def judge(ctx, p, rng, dirpath):
     kinds = rng.sample(KINDS, min(PER_TEXT[ctx.tier], len(KINDS)))
     for kind in kinds:
         root = copy.deepcopy(p.tree)
+        CONV_DT[0] = None
         r = inject(rng, p.res, root, kind)
+        conv_dt = CONV_DT[0]
         if r is None:
             res.count("not_applicable")
             continue
@@ -599,7 +608,7 @@ def judge(ctx, p, rng, dirpath):
                                         cls, exotic))
             case = {"model": p.model, "files": layout.texts(),
                     "kind": kind, "expected_positions": want,
-                    "stage": stage}
+                    "stage": stage, "conv_datatype": conv_dt}
             res.sample("%s-%s" % (kind, included if isinstance(included, str)
                                   else "inc" if included else "main"),
                        dict(case, error=cls), 1)
@@ -687,9 +696,23 @@ def check(res, case, e, want, stage, target, kind):
         ok = (isinstance(e, ZConfig.DataConversionError)
               and getattr(e, "value", None) == text
               and isinstance(getattr(e, "exception", None), Exception))
+        orig = None
+        if ok and case.get("conv_datatype"):
+            # "the original exception": what the datatype itself raises
+            # for that text (class and arguments)
+            from ZConfig import datatypes
+            try:
+                datatypes.Registry().get(case["conv_datatype"])(text)
+            except Exception as o:  # noqa
+                orig = o
+            res.hook("original_exception_compared")
+            if orig is not None:
+                ex = e.exception
+                ok = type(ex) is type(orig) and ex.args == orig.args
         if not ok:
             res.violate("conversion-error-lacks-details", case,
-                        {"class": "DataConversionError", "value": text},
+                        {"class": "DataConversionError", "value": text,
+                         "exception": repr(orig)},
                         {"class": type(e).__name__,
                          "value": repr(getattr(e, "value", None)),
                          "exception": repr(getattr(e, "exception", None))},
